@@ -22,7 +22,7 @@ def feemarket (_ : Unit) (toks : List String) : Unit × String :=
   | ["calc", b, mg, cons, mn] =>
     match b.toNat?, (if mg = "nil" then some none else mg.toInt?.map some), cons.toNat?, mn.toNat? with
     | some b, some (mg : Option Int), some cons, some mn =>
-      let k : keeper_Keeper := { (default : keeper_Keeper) with GetParams_BaseFee := b, GetParams_MinGasPrice := mn, evmKeeper_GetChainConfig_IsLondon := fun _ => true }
+      let k : feemarket_keeper_Keeper := { (default : feemarket_keeper_Keeper) with GetParams_BaseFee := b, GetParams_MinGasPrice := mn, evmKeeper_GetChainConfig_IsLondon := fun _ => true }
       let ctx : types_Context := { (default : types_Context) with BlockGasMeter_GasConsumedToLimit := FeeMarket.gasUsedOf mg cons, BlockHeight := 1, ConsensusParams_Block_MaxGas := mg.getD 0, ConsensusParams_Block_isNil := mg.isNone }
       ((), showOpt (keeper_Keeper_CalculateBaseFee k ctx))
     | _, _, _, _ => ((), "bad-op")
